@@ -660,7 +660,11 @@ class Connection(ExportImport):
         # by another thread, so the risk of a reread is pretty low.
         # It's really not worth the effort to pursue this.
 
-        self._cache.invalidate(self._modified)
+        # New objects stored through savepoints are listed in _modified as
+        # well.  They are disowned below and could not be loaded again, so
+        # they must not be turned into ghosts.
+        self._cache.invalidate(
+            [oid for oid in self._modified if oid not in self._creating])
         self._invalidate_creating()
         while self._added:
             oid, obj = self._added.popitem()
